@@ -29,7 +29,7 @@ META = {
             "over the whole bounded state graph, enumerates every access sequence up to a bound and one test per "
             "transition of the graph; all are replayed on the real functions on a private parsec_data_t with 3 copies "
             "and every access (result and full state) is validated by TLC against the property.",
-    "note": "3 device copies (2 and 3 in thorough); all sequences of <= 3 (quick) / 5-6 (thorough) accesses (device, R/W/RW, "
+    "note": "3 device copies (2 and 3 in thorough); all sequences of <= 3 (quick) / 4-5 (thorough) accesses (device, R/W/RW, "
             "bump), every transition of the state graph with versions <= 2 / 4, random walks of 10-16 accesses. Client "
             "discipline assumed: W always bumps, R never, RW may; the client copies the version of the named source. "
             "Trusted: TLC, the harness playing the client.",
@@ -124,7 +124,7 @@ def run(ctx):
     # ---- 2. behaviours -----------------------------------------------------------------------------------------
     sets = {}                                   # n -> list of behaviour lines
     # (a) every access sequence up to the bound
-    for n, ml in (((3, 3),) if q else ((3, 5), (2, 6))):
+    for n, ml in (((3, 3),) if q else ((3, 4), (2, 5))):
         mod, cfg = mcgen.write_mc(d, "bfs%d" % n, "Coherency", consts(n, ml, ml, True, False), invariants=("TypeOK", "Emit"))
         r = ctx.tlc_check(d, mod, cfg, must_cover=("Access",), workers=4, timeout=2400)
         hs = [h for h in (tlc._parse_tla_string_list(l) for l in r.printed) if h]
